@@ -36,5 +36,5 @@ Spec == Init /\ [][Next]_vars
 Additive == \A m \in (lo[1] + 1)..(hi[1] - 1) :
                LET e1 == Expected(kind, dim, lo, [hi EXCEPT ![1] = m], coef, deg)
                    e2 == Expected(kind, dim, [lo EXCEPT ![1] = m], hi, coef, deg)
-               IN  e1[1] * e2[2] * expected[2] + e2[1] * e1[2] * expected[2] = expected[1] * e1[2] * e2[2]
+               IN  e1[2] = expected[2] /\ e2[2] = expected[2] /\ e1[1] + e2[1] = expected[1]     \* common denominator: no cross-multiplication (32-bit integers)
 =====================================================================================
